@@ -198,21 +198,22 @@ func StdData(r *rand.Rand) val.V {
 		{K: "ms", V: val.Typed("maps", val.Map(val.KV{K: "name", V: str()}), val.Map(val.KV{K: "name", V: str()}))},
 		{K: "st", V: val.Struct(val.KV{K: "A", V: val.Int("int", 3)}, val.KV{K: "S", V: str()}, val.KV{K: "priv", V: val.Int("int", 1)}, val.KV{K: "M", V: val.Map(val.KV{K: "k", V: num()})})},
 		{K: "pst", V: val.PStruct(val.KV{K: "A", V: val.Int("int", 4)}, val.KV{K: "S", V: str()})},
-		{K: "nilp", V: val.V{K: "nilptr"}},
+		{K: "nilp", V: val.V{K: "nilptr"}}, {K: "nd", V: val.V{K: "nildec"}},
+		{K: "z.k", V: val.Int("int", 42)}, {K: "undefinedname.name", V: val.Str("flat")}, {K: "m.missing", V: val.Int("int", 7)}, {K: "nilp.k", V: val.Str("flat2")}, {K: "$v.k", V: val.Int("int", 9)},
 		{K: "t0", V: val.Time(int64(r.Intn(2e9)), 0, []string{"UTC", "Local", "Asia/Shanghai"}[r.Intn(3)])},
 		{K: "d0", V: val.Dec([]string{"1.50", "0", "-2.25", "1E+3", "0.1"}[r.Intn(5)])},
 		{K: "u0", V: val.Uint("uint8", uint64(r.Intn(200)))},
 		{K: "fid", V: val.Fn("id")}, {K: "ferr", V: val.Fn("err")}, {K: "fsum", V: val.Fn("sum")}, {K: "fcat", V: val.Fn("cat")},
 		{K: "fnums", V: val.Fn("nums")}, {K: "fstrs", V: val.Fn("strs")}, {K: "fctx", V: val.Fn("ctx")}, {K: "fnoret", V: val.Fn("noret")},
-		{K: "fone", V: val.Fn("one")}, {K: "fpanic", V: val.Fn("panic")}, {K: "fanys", V: val.Fn("anys")}, {K: "ftime", V: val.Fn("time")}, {K: "fmap", V: val.Fn("mapf")},
+		{K: "fone", V: val.Fn("one")}, {K: "fpanic", V: val.Fn("panic")}, {K: "fnildec", V: val.Fn("retnildec")}, {K: "fnilptr", V: val.Fn("retnilptr")}, {K: "fanys", V: val.Fn("anys")}, {K: "ftime", V: val.Fn("time")}, {K: "fmap", V: val.Fn("mapf")},
 	}
 	// odd kinds under fixed names
 	kv = append(kv, val.KV{K: "x0", V: val.RandValue(r, 2)}, val.KV{K: "x1", V: val.RandValue(r, 3)}, val.KV{K: "x2", V: val.RandScalar(r)})
 	return val.Map(kv...)
 }
 
-var stdNames = []string{"n0", "n1", "s0", "s1", "b0", "z", "m", "tm", "arr", "strs", "ms", "st", "pst", "nilp", "t0", "d0", "u0", "x0", "x1", "x2", "undefinedname", "$v", "$w"}
-var stdFuncs = []string{"fid", "ferr", "fsum", "fcat", "fnums", "fstrs", "fctx", "fnoret", "fone", "fpanic", "fanys", "ftime", "fmap", "undefinedfn", "n0", "s0", "m", "z"}
+var stdNames = []string{"n0", "n1", "s0", "s1", "b0", "z", "m", "tm", "arr", "strs", "ms", "st", "pst", "nilp", "nd", "t0", "d0", "u0", "x0", "x1", "x2", "undefinedname", "$v", "$w"}
+var stdFuncs = []string{"fid", "ferr", "fsum", "fcat", "fnums", "fstrs", "fctx", "fnoret", "fone", "fpanic", "fanys", "ftime", "fmap", "fnildec", "fnilptr", "undefinedfn", "n0", "s0", "m", "z"}
 var stdMembers = []string{"k", "name", "b", "f", "A", "S", "M", "priv", "Z", "missing"}
 
 // safeBuiltins: every builtin except lpad/rpad (whose length argument is generated
